@@ -110,7 +110,11 @@ class CacheDriver:
         out = []
         sets = []
         for i, o in enumerate(self.observers):
-            rows, s = o.snapshot()
+            try:
+                rows, s = o.snapshot()
+            except Exception as exc:       # noqa: BLE001
+                raise Mismatch('the database of shard %d cannot be read at the released location %s/cache.db (%s: %s)' % (
+                    i, self.shard_dirs[i], type(exc).__name__, exc), self.witness())
             for row in rows:
                 row['shard'] = i
             out.extend(rows)
@@ -180,6 +184,41 @@ class CacheDriver:
         if worst is not None:
             self.clock.advance(worst - now + 2 * self.clock.TICK)
             self.window_avoided = getattr(self, 'window_avoided', 0) + 1
+
+    # ------------------------------------------------- externally executed calls (C18)
+    def replay_external(self, records):
+        """records: [(op, args, kw, got, reads)] executed elsewhere (another process, a forked child) on a
+        handle of the same directory.  Results are compared call by call; the table is reconciled once at the
+        end, with the lazy-cull budget of all the writes in between."""
+        mdl = self.model
+        culls = 0
+        last_reads = []
+        for op, args, kw, got, reads in records:
+            self.nops += 1
+            self.history.append((op, args, kw))
+            mdl.begin(list(reads))
+            expected = getattr(mdl, 'op_' + op)(*args, **kw)
+            if mdl.culling:
+                culls += 1
+            last_reads = list(reads) or last_reads
+            if op in ('iter', 'reversed', 'iterkeys'):
+                self._compare_keys(op, expected, got)
+            elif not M.result_matches(expected, got[0], got[1]):
+                raise Mismatch('%s executed by another handle returned %r, reference says %r' % (op, got, expected),
+                               self.witness(extra={'got': got, 'expected': expected}))
+        rows, sets = self.dump()
+        mdl.culling = culls > 0
+        mdl.cull_budget = mdl.cull_limit * max(culls, 1)
+        try:
+            self._reconcile('external-batch', (), {}, rows, sets, last_reads)
+        finally:
+            mdl.cull_budget = None
+        if self.check_invariant:
+            for d in self.shard_dirs:
+                problems = observe.invariant(d)
+                if problems:
+                    raise Mismatch('structural invariant broken after calls by another handle: %s' % problems[:3],
+                                   self.witness(extra={'problems': problems[:10]}))
 
     # ------------------------------------------------------------ blocks (C06)
     def begin_block(self):
